@@ -190,7 +190,8 @@ Lemma loadtime_types_expected :
           ["goRuleSet"; "scopedGoRuleSet"; "goRule"; "goCommentRule"; "matchFilter"; "GoRuleGroup";
            "quasigo.Env"; "quasigo.Func"; "typematch.Pattern"; "typematch.pattern";
            "textmatch.containsLiteralMatcher"; "textmatch.prefixLiteralMatcher"; "textmatch.suffixLiteralMatcher";
-           "textmatch.eqLiteralMatcher"; "textmatch.prefixRunePredMatcher"]%string
+           "textmatch.eqLiteralMatcher"; "textmatch.prefixRunePredMatcher";
+           "dslTypesPackage"; "dslVarFilterContext"; "dslDoContext"; "dslTypesType"]%string
   && forallb (fun n => str_in n gen_loadtime_external) ["regexp.Regexp"; "gogrep.Pattern"; "types.Type"; "types.Interface"]%string
   (* every filter constructor is accounted for: the closures capture nothing but their parameters *)
   && forallb (fun n => existsb (fun e : string * list string => String.eqb (fst e) n) gen_filter_captures)
@@ -235,9 +236,56 @@ Proof. vm_compute. reflexivity. Qed.
 (* the scan looked into the packages that hold the Load-time objects' methods *)
 Lemma scan_covers :
   forallb (fun n => str_in n gen_scanned_pkgs)
-          ["ruleguard"; "ruleguard/quasigo"; "ruleguard/typematch"; "ruleguard/textmatch"; "internal/xtypes"]%string
+          ["ruleguard"; "ruleguard/quasigo"; "ruleguard/typematch"; "ruleguard/textmatch"; "internal/xtypes";
+           "ruleguard/quasigo/stdlib/qstrings"; "ruleguard/quasigo/stdlib/qstrconv"; "ruleguard/quasigo/stdlib/qfmt"]%string
   && existsb (fun w : string * string * string => String.eqb (snd (fst w)) "typematch.MatcherState") gen_run_writes
   && existsb (fun w : string * string * string => String.eqb (snd (fst w)) "quasigo.ValueStack") gen_run_writes = true.
+Proof. vm_compute. reflexivity. Qed.
+
+(* ---------------------------------------------------------------- the natives
+   bound once per engine (method values of struct literals, functions registered by the stdlib packages) and shared by
+   all runs: gen_natives is the regenerated table, gen_native_impls the structs behind the method values *)
+Lemma native_impls_are_loadtime :
+  forallb (fun n => str_in n gen_loadtime_types) gen_native_impls && negb (Nat.eqb (List.length gen_native_impls) 0) = true.
+Proof. vm_compute. reflexivity. Qed.
+
+(* every native is a method of one of those structs or a function of a scanned package (so its body is in the scan) *)
+Lemma natives_homes_known :
+  forallb (fun n : string * string * string * string => str_in (snd n) gen_native_impls || str_in (snd n) gen_scanned_pkgs) gen_natives = true.
+Proof. vm_compute. reflexivity. Qed.
+
+Definition native_bound (q n : string) : bool :=
+  existsb (fun e : string * string * string * string => String.eqb (fst (fst (fst e))) q && String.eqb (snd (fst (fst e))) n) gen_natives.
+
+Lemma natives_expected :
+  native_bound "*github.com/quasilyte/go-ruleguard/dsl.VarFilterContext" "GetType"
+  && native_bound "*github.com/quasilyte/go-ruleguard/dsl.VarFilterContext" "GetInterface"
+  && native_bound "*github.com/quasilyte/go-ruleguard/dsl.DoContext" "Var"
+  && native_bound "github.com/quasilyte/go-ruleguard/dsl/types" "NewPointer"
+  && native_bound "github.com/quasilyte/go-ruleguard/dsl/types" "Implements"
+  && native_bound "github.com/quasilyte/go-ruleguard/dsl/types.Type" "Underlying"
+  && native_bound "strings" "Replace" && native_bound "fmt" "Sprintf"
+  && Nat.leb 40 (List.length gen_natives) = true.
+Proof. vm_compute. reflexivity. Qed.
+
+(* the natives keep nothing between calls: the structs behind them have no field but the pointer to the engine-wide
+   state (whose fields are governed by the lock discipline) -- in particular no table in front of FindType, whose
+   answers are answers for ONE package (RG.Locks.Front: such a table is unsound as soon as two packages disagree) *)
+Lemma natives_stateless :
+  forallb (fun n => match find (fun e : string * list (string * string) => String.eqb (fst e) n) gen_structs with
+                    | Some e => forallb (fun f : string * string => String.eqb (snd f) "*engineState") (snd e)
+                    | None => false
+                    end) gen_native_impls = true.
+Proof. vm_compute. reflexivity. Qed.
+
+(* no value that contains a lock is copied anywhere in the scanned packages (a method with a value receiver on a struct
+   with a mutex field locks the copy; go vet's copylocks, which the test suite does not run) *)
+Lemma no_lock_copied : gen_lock_copies = [].
+Proof. vm_compute. reflexivity. Qed.
+
+(* every element write is attributed: none is left at "a reference that came in as a parameter or a call result" *)
+Lemma no_untracked_element_writes :
+  forallb (fun w : string * string * string => negb (String.eqb (snd (fst w)) "local-ref")) gen_run_writes = true.
 Proof. vm_compute. reflexivity. Qed.
 
 (* ---------------------------------------------------------------- the Load-time objects inside the lock model
